@@ -17,6 +17,8 @@
 package main
 
 import (
+	"encoding/json"
+	"flag"
 	"fmt"
 	"math/rand"
 	"os"
@@ -678,8 +680,18 @@ func boolsCoq(l []bool) string {
 	return hx.List(out)
 }
 
+var dumpCorpus = flag.String("dump-corpus", "", "write the built-in corpus as replay files into this directory and exit")
+
 func main() {
 	o := hx.Parse()
+	if *dumpCorpus != "" {
+		c0809.Must(os.MkdirAll(*dumpCorpus, 0o755))
+		for i, in := range corpus() {
+			b, _ := json.MarshalIndent(map[string]interface{}{"property": "C08", "input": in}, "", " ")
+			c0809.Must(os.WriteFile(filepath.Join(*dumpCorpus, fmt.Sprintf("corpus_%02d.json", i)), b, 0o644))
+		}
+		return
+	}
 	rng := o.Rng()
 	workDir = filepath.Join(o.Out, "scratch")
 	c0809.Must(os.MkdirAll(workDir, 0o755))
@@ -694,7 +706,7 @@ func main() {
 	} else {
 		inputs = append(inputs, corpus()...)
 		inputs = append(inputs, gridDecide()...)
-		nd, ne, nw, nc := o.Count(500, 20000), o.Count(500, 20000), o.Count(350, 10000), o.Count(150, 10000)
+		nd, ne, nw, nc := o.Count(700, 20000), o.Count(600, 20000), o.Count(500, 10000), o.Count(300, 10000)
 		if o.Search {
 			nd, ne, nw, nc = nd/4, 0, nw*2, nc*2
 		}
